@@ -49,20 +49,14 @@ pub mod verif {
     pub use super::common::listener::WebSocketAddress;
     pub use super::{
         common::listener::{AddressType, DnsType, GetSocketAddr, TcpAddress},
-        manager::verif::*,
+        manager::{
+            verif::{VerifCall, VerifManagerEvent, VerifScript},
+            verif_addr::*,
+        },
     };
 }
 
 pub use manager::limits::{ConnectionLimitsConfig, ConnectionLimitsError};
-
-/// Verification hooks: the transport manager and its scripted transport for the external harness.
-#[cfg(feature = "verif")]
-pub mod verif {
-    pub use super::manager::{
-        verif::{VerifCall, VerifManagerEvent, VerifScript},
-        TransportManager, TransportManagerBuilder,
-    };
-}
 
 /// Timeout for opening a connection.
 pub(crate) const CONNECTION_OPEN_TIMEOUT: Duration = Duration::from_secs(10);
